@@ -10,7 +10,7 @@ state of order len(ref).  N up to 200: ObsC13.tla.
 import numpy as np
 
 from .. import core, material as M, tlc, obs
-from ..kern_util import call_guard, cmp_vec, cmp_scalar
+from ..kern_util import call_guard, cmp_vec, cmp_scalar, entry_variants
 
 CRITERIA = ('AIC', 'AICc', 'KIC', 'FPE', 'AKICc', 'MDL')
 
@@ -34,22 +34,22 @@ def replay_state(chk, st, cplx, table):
     if q == 0:
         return
     expA, expRho, expK = expected(st)
-    xs = [np.array(M.cq_seq(st['x']), dtype=complex)] if cplx else \
-         [list(M.real_list(st['x'])), np.array(M.real_list(st['x']), dtype=float)]
-    for x in xs:
-        kind = 'list' if isinstance(x, list) else 'ndarray'
-        case = {'x': x, 'order': q, 'expect': {'a': expA, 'rho': expRho, 'ref': expK}}
-        ok, res = call_guard(arburg, x if kind == 'list' else x.copy(), q)
+    vals = M.cq_seq(st['x']) if cplx else M.real_list(st['x'])
+    counter = getattr(chk, '_c13_counter', 0)
+    chk._c13_counter = counter + 1
+    for ename, x, tol in entry_variants(vals, cplx, counter, full=chk.tier != 'quick'):
+        case = {'x': x, 'entry': ename, 'order': q, 'expect': {'a': expA, 'rho': expRho, 'ref': expK}}
+        ok, res = call_guard(arburg, x if isinstance(x, list) else x.copy(), q)
         chk.evaluations += 1
         if not ok:
-            chk.violation('C13:arburg:%s:raises' % mode, 'arburg raises %r on non-degenerate data' % (res,), case)
+            chk.violation('C13:arburg:%s:raises:%s' % (mode, ename), 'arburg raises %r on non-degenerate data (%s input)' % (res, ename), case)
             continue
         a, rho, ref = res
-        bad = cmp_vec(a, expA, name='ar') or cmp_scalar(rho, expRho, name='rho') or cmp_vec(ref, expK, name='reflection')
+        bad = cmp_vec(a, expA, tol=tol, name='ar') or cmp_scalar(rho, expRho, tol=tol, name='rho') or cmp_vec(ref, expK, tol=tol, name='reflection')
         if bad:
-            chk.violation('C13:arburg:%s:values' % mode, 'arburg(x=%s, %d) is not the Burg model: %s' % (np.asarray(x).tolist(), q, bad),
+            chk.violation('C13:arburg:%s:values:%s' % (mode, ename), 'arburg(x=%s as %s, %d) is not the Burg model: %s' % (np.asarray(x).tolist(), ename, q, bad),
                           dict(case, observed={'a': a, 'rho': rho, 'ref': ref}))
-    xa = np.asarray(xs[-1])
+    xa = np.array(vals, dtype=complex if cplx else float)
     ok, res = call_guard(_arburg2, xa.copy(), q)
     if not ok:
         chk.violation('C13:_arburg2:%s:raises' % mode, '_arburg2 raises %r' % (res,), {'x': xa, 'order': q})
